@@ -420,7 +420,11 @@ fn sealed(ctx: &mut Ctx) {
             ctx.checks += 1;
             match guard(|| MemoryMap::new(&path, MappingMode::ReadOnly).map(|m| { let s: &[u64] = m.as_ref(); s.iter().flat_map(|w| w.to_le_bytes()).collect::<Vec<u8>>() })) {
                 Ok(Ok(bytes)) => { if bytes != content { ctx.violation("map.sealed.read_only.content", format!("read-only map of a {}-byte memory file (seals: {}) differs from its content", size, label)); } ctx.count("sealed.read_only_mapped", 1); },
-                Ok(Err(_)) => ctx.count("sealed.read_only_refused", 1),
+                Ok(Err(e)) => {
+                    ctx.count("sealed.read_only_refused", 1);
+                    // A memory file that was never sealed is an ordinary file of a valid size: nothing to refuse.
+                    if seals == 0 { ctx.violation("map.memfd.valid_file_refused", format!("read-only map of an unsealed {}-byte memory file (reached through /proc/self/fd) was refused: {}", size, e)); }
+                },
                 Err(p) => ctx.violation("map.sealed.read_only!panic", format!("MemoryMap::new(read-only) panicked on a {}-byte memory file (seals: {}): {}", size, label, p)),
             }
             // Mutable.
@@ -446,6 +450,11 @@ fn sealed(ctx: &mut Ctx) {
                 },
                 Err(p) => ctx.violation("map.sealed.mutable!panic", format!("MemoryMap::new(mutable) panicked on a {}-byte memory file (seals: {}): {}", size, label, p)),
             }
+            // Whatever was granted or refused: nothing of the memory file may still be mapped.
+            ctx.checks += 1;
+            let maps = std::fs::read_to_string("/proc/self/maps").unwrap_or_default();
+            let left = maps.lines().filter(|l| l.contains("memfd:vmon-c18-sealed")).count();
+            if left != 0 { ctx.violation("map.memfd.still_mapped", format!("{} mapping(s) of a {}-byte memory file (seals: {}) are left after every map was dropped or refused", left, size, label)); }
             unsafe { libc::close(fd); }
         }
     }
